@@ -510,6 +510,47 @@ def r12_label_decoding_evaluated(idx, r):
               msg=f"(label, decoded) = {bad[:3]} of {len(bad)} wrong out of {n}: the label does not decode to the indices it encodes")
 
 
+INDEX_PARAMS = ("i", "j", "k", "ring", "pos", "indices", "ringPos")
+
+
+def r14_index_arguments_used_and_ring_count(idx, r):
+    """(a) a function of the grid package that takes an index argument (i, j, k, ring, pos, indices) uses it: getLocatorFromRingAndPos(ring, pos,
+    k) that answers `self[i, j, 0]` is right for every caller that passes k = 0 and wrong for all others.  (b) numRingsToHoldNumCells is
+    EVALUATED (MiniEval) for every n in 1..6000: it returns the smallest r with 3 r (r - 1) + 1 >= n (integer arithmetic on the checker's
+    side) - rounding the closed form puts the first cell beyond a full ring back into it once r is large (n = 1952)."""
+    from ..minieval import MiniEval
+    n = 0
+    for f in idx.all_funcs():
+        if not f.module.name.startswith("armi.reactor.grids") or ".tests" in f.module.name:
+            continue
+        a = f.node.args
+        ps = [x.arg for x in a.posonlyargs + a.args + a.kwonlyargs if x.arg in INDEX_PARAMS]
+        body = [x for x in f.node.body if not (isinstance(x, ast.Expr) and isinstance(x.value, ast.Constant))]
+        constant = len(body) == 1 and isinstance(body[0], ast.Return) and (body[0].value is None or isinstance(body[0].value, ast.Constant) or (isinstance(body[0].value, (ast.List, ast.Tuple, ast.Dict)) and not ast.dump(body[0].value).count("Name(")))
+        if not ps or constant or (len(body) <= 1 and (not body or isinstance(body[0], (ast.Raise, ast.Pass)))) or any(isinstance(d, ast.Name) and d.id == "abstractmethod" for d in f.node.decorator_list):
+            continue
+        read = {x.id for x in walk_local(f.node) if isinstance(x, ast.Name) and isinstance(x.ctx, ast.Load)}
+        for p_ in ps:
+            n += 1
+            r.require(p_ in read, f"{f.qualname}:uses:{p_}", f, msg=f"{f.qualname} takes the index argument `{p_}` and does not use it: the answer is the same for every {p_}")
+    if n < 20:
+        raise AnchorMissing("grid functions with index arguments")
+    g = idx.func("armi.utils.hexagon.numRingsToHoldNumCells")
+    prm = g.params()[0]
+    bad = []
+    rr, cap = 1, 1
+    for cells in range(1, 6001):
+        while cap < cells:
+            rr += 1
+            cap = 3 * rr * (rr - 1) + 1
+        got, _ = MiniEval().run(g.node, {prm: cells})
+        if got != rr:
+            bad.append((cells, got, rr))
+            if len(bad) > 3:
+                break
+    r.require(not bad, "numRingsToHoldNumCells:smallest-ring-count-that-holds-n", g, msg=f"(cells, rings returned, smallest sufficient) = {bad[:3]}: the minimum number of rings does not hold the cells (or is not minimal)")
+
+
 def r13_pairing(idx, r):
     from ..pairing import pairing_rule
     pairing_rule(idx, r, ["armi.reactor.grids"], 40)
@@ -546,3 +587,5 @@ def run(idx, chk):
                  necessary="index <-> label conversions are mutually inverse")
     chk.run_rule("R07.13", "arguments stand at the parameter they are named after; sibling calls forward the same pass-through parameters", lambda r: r13_pairing(idx, r), floor=1,
                  necessary="coordinates and indices are handed over in (i, j, k) / (x, y, z) order")
+    chk.run_rule("R07.14", "index arguments of grid functions are used; minimum rings for n cells is exact for n = 1..6000 (evaluated)", lambda r: r14_index_arguments_used_and_ring_count(idx, r), floor=20,
+                 necessary="ring/position <-> index conversions are mutually inverse for every axial index; a minimum ring count holds its cells")
